@@ -15,18 +15,52 @@ import re
 
 import numpy as np
 
+from vf.util import same
+
+
+def plainify(x):
+    """Trait containers -> plain containers so `same` compares by content."""
+    if isinstance(x, list):
+        return [plainify(e) for e in x]
+    if isinstance(x, tuple) and type(x) is tuple:
+        return tuple(plainify(e) for e in x)
+    if isinstance(x, dict):
+        return {k: plainify(v) for k, v in x.items()}
+    if isinstance(x, set):
+        return set(x)
+    return x
+
 
 class R:
-    __slots__ = ("accepts", "rej", "passes")
+    """Allowed outcomes.  Either an explicit list of acceptable stored values
+    (`accepts`) or, for containers, a structural `matcher(stored) -> bool`."""
+    __slots__ = ("accepts", "rej", "passes", "matcher")
 
-    def __init__(self, accepts=(), rej=False, passes=()):
+    def __init__(self, accepts=(), rej=False, passes=(), matcher=None):
         self.accepts = list(accepts)
         self.rej = rej
         self.passes = set(passes)
+        self.matcher = matcher
+
+    def acceptable(self):
+        return bool(self.accepts) or self.matcher is not None
+
+    def matches(self, stored):
+        if self.matcher is not None:
+            try:
+                return bool(self.matcher(stored))
+            except Exception:
+                return False
+        ps = plainify(stored)
+        for a in self.accepts:
+            if same(ps, a):
+                return True
+        return False
 
     def __repr__(self):
-        return "R(accepts=%r, rej=%r, passes=%r)" % (self.accepts[:3], self.rej,
-                                                     sorted(t.__name__ for t in self.passes))
+        return "R(accepts=%s, rej=%r, passes=%r)" % (
+            "<structural>" if self.matcher is not None else repr(self.accepts[:3]), self.rej,
+            sorted(t.__name__ for t in self.passes))
 
 
 def ACC(v):
@@ -251,12 +285,10 @@ def ref_simple_instance(cls, allow_none):
 
 
 # --- composites ------------------------------------------------------------
-def _product(lists, cap=24):
-    out = [[]]
-    for alts in lists:
-        out = [p + [a] for p in out for a in alts]
-        if len(out) > cap:
-            out = out[:cap]
+def _union_passes(rs):
+    out = set()
+    for r in rs:
+        out |= r.passes
     return out
 
 
@@ -265,29 +297,27 @@ def ref_tuple(*members):
         if not isinstance(v, tuple) or len(v) != len(members):
             return REJ
         rs = [m(x) for m, x in zip(members, v)]
-        passes = set().union(*[r.passes for r in rs]) if rs else set()
-        rej = any(r.rej for r in rs)
-        if all(r.accepts for r in rs):
-            combos = _product([r.accepts for r in rs])
-            accepts = [tuple(c) for c in combos]
-            # the container may be the caller's tuple subclass left as is
-            # (domain = shape + members); an exact tuple is equally fine
-            if type(v) is not tuple:
-                try:
-                    accepts += [v]
-                except Exception:
-                    pass
-            return R(accepts, rej, passes)
-        return R([], True, passes)
+        passes = _union_passes(rs)
+        if not all(r.acceptable() for r in rs):
+            return R([], True, passes)
+
+        def matcher(s):
+            # the container may be the caller's tuple subclass left as is (domain = shape +
+            # members); an exact tuple is equally fine
+            if not (type(s) is tuple or s is v):
+                return False
+            return len(s) == len(rs) and all(r.matches(e) for r, e in zip(rs, s))
+        return R([], any(r.rej for r in rs), passes, matcher)
     return f
 
 
 def ref_union(*members):
     def f(v):
         rs = [m(v) for m in members]
-        accepts = [a for r in rs for a in r.accepts]
-        return R(accepts, all(r.rej for r in rs) if not accepts else False,
-                 set().union(*[r.passes for r in rs]))
+        ok = [r for r in rs if r.acceptable()]
+        if not ok:
+            return R([], all(r.rej for r in rs), _union_passes(rs))
+        return R([], False, _union_passes(rs), lambda s: any(r.matches(s) for r in ok))
     return f
 
 
@@ -296,11 +326,13 @@ def ref_list(member, minlen=0, maxlen=10 ** 9):
         if not isinstance(v, list) or not (minlen <= len(v) <= maxlen):
             return REJ
         rs = [member(x) for x in v]
-        passes = set().union(*[r.passes for r in rs]) if rs else set()
-        if all(r.accepts for r in rs):
-            return R([list(c) for c in _product([r.accepts for r in rs])],
-                     any(r.rej for r in rs), passes)
-        return R([], True, passes)
+        passes = _union_passes(rs)
+        if not all(r.acceptable() for r in rs):
+            return R([], True, passes)
+
+        def matcher(s):
+            return isinstance(s, list) and len(s) == len(rs) and all(r.matches(e) for r, e in zip(rs, s))
+        return R([], any(r.rej for r in rs), passes, matcher)
     return f
 
 
@@ -308,16 +340,17 @@ def ref_set(member):
     def f(v):
         if not isinstance(v, set):
             return REJ
-        items = list(v)
-        rs = [member(x) for x in items]
-        passes = set().union(*[r.passes for r in rs]) if rs else set()
-        if all(r.accepts for r in rs):
-            try:
-                return R([set(c) for c in _product([r.accepts for r in rs])],
-                         any(r.rej for r in rs), passes)
-            except TypeError:
-                return REJ
-        return R([], True, passes)
+        rs = [member(x) for x in list(v)]
+        passes = _union_passes(rs)
+        if not all(r.acceptable() for r in rs):
+            return R([], True, passes)
+
+        def matcher(s):
+            if not isinstance(s, set):
+                return False
+            return (all(any(r.matches(e) for e in s) for r in rs)
+                    and all(any(r.matches(e) for r in rs) for e in s))
+        return R([], any(r.rej for r in rs), passes, matcher)
     return f
 
 
@@ -328,13 +361,21 @@ def ref_dict(kmember, vmember):
         ks = list(v.keys())
         krs = [kmember(k) for k in ks]
         vrs = [vmember(v[k]) for k in ks]
-        passes = set().union(*[r.passes for r in krs + vrs]) if ks else set()
-        if all(r.accepts for r in krs + vrs):
-            kc = _product([r.accepts for r in krs], cap=4)
-            vc = _product([r.accepts for r in vrs], cap=4)
-            return R([dict(zip(a, b)) for a in kc for b in vc],
-                     any(r.rej for r in krs + vrs), passes)
-        return R([], True, passes)
+        passes = _union_passes(krs + vrs)
+        if not all(r.acceptable() for r in krs + vrs):
+            return R([], True, passes)
+
+        def matcher(s):
+            if not isinstance(s, dict):
+                return False
+            for kr, vr in zip(krs, vrs):
+                if not any(kr.matches(sk) and vr.matches(sv) for sk, sv in s.items()):
+                    return False
+            for sk, sv in s.items():
+                if not any(kr.matches(sk) and vr.matches(sv) for kr, vr in zip(krs, vrs)):
+                    return False
+            return True
+        return R([], any(r.rej for r in krs + vrs), passes, matcher)
     return f
 
 
